@@ -28,9 +28,13 @@ for sid in sorted(os.listdir(os.path.join(VERIF, 'seeded'))):
         rows.append((sid, prop, 'PATCH-STALE', ''))
         continue
     try:
-        r = sh(f'cd {VERIF} && VERIF_EVIDENCE_DIR={evd} ./check {prop}')
-        obs = sorted({l.split()[0] for l in r.stdout.splitlines() if l.startswith('  C') and '[' in l.split(' inst')[0]})
-        rows.append((sid, prop, {0: 'missed', 1: 'detected', 2: 'analysis-error'}.get(r.returncode, str(r.returncode)), ' '.join(obs)))
+        worst, obs = 0, set()
+        for pp in [prop] + meta.get('also_check', []):
+            r = sh(f'cd {VERIF} && VERIF_EVIDENCE_DIR={evd} ./check {pp}')
+            obs |= {l.split()[0] for l in r.stdout.splitlines() if l.startswith('  C') and '[' in l.split(' inst')[0]}
+            if r.returncode == 1 or (r.returncode == 2 and worst == 0):
+                worst = r.returncode if worst != 1 else 1
+        rows.append((sid, prop, {0: 'missed', 1: 'detected', 2: 'analysis-error'}.get(worst, str(worst)), ' '.join(sorted(obs))))
     finally:
         sh('git -C /repo checkout -- .')
 sh(f'rm -rf {evd}')
